@@ -55,6 +55,12 @@ Proof. exact enum_member_int_valid. Qed.
 Print Assumptions C20_full_enum_member_int.
 
 (* ---------------------------------------------------------------- tag sanitisers and the identifier test: witnesses *)
+Theorem C20_partial_tag_attr_name : forall u_word u_lower u_ign u_cased s,
+  no_foreign_word u_word s = true -> has_alnum s = true -> first_alnum_not_digit s = true ->
+  is_ident (tag_attr_name u_word u_lower u_ign u_cased s) = true.
+Proof. exact tag_attr_name_ident_partial. Qed.
+Print Assumptions C20_partial_tag_attr_name.
+
 Theorem C20_refuted_F20d : forall u_word u_lower u_title u_ign u_cased,
   first_alnum_not_digit w_1st = false
   /\ is_ident (tag_attr_name u_word u_lower u_ign u_cased w_1st) = false
@@ -107,6 +113,12 @@ Theorem C20_full_dedup_models_nodup : forall raw,
   /\ length out = length raw /\ Permutation (map fst out) (seq 0 (length raw)).
 Proof. exact dedup_models_nodup. Qed.
 Print Assumptions C20_full_dedup_models_nodup.
+
+Theorem C20_partial_dedup_models_valid : forall raw,
+  forallb guard_F20a (map class_name raw) = true ->
+  Forall (fun x => valid_name (fst (snd x)) = true /\ valid_name (snd (snd x)) = true) (dedup_models raw).
+Proof. exact dedup_models_valid. Qed.
+Print Assumptions C20_partial_dedup_models_valid.
 
 (* ---------------------------------------------------------------- namespaces: operation ids *)
 Theorem C20_full_dedup_ops_prefix : forall ids,
